@@ -45,6 +45,8 @@ def run(repo: Repo, chk: Check):
     chk.rule("R01.g", "the opcode column of the operator tables is the documented instruction of the operator", floor=20)
     chk.rule("R01.h", "operands of non-commutative constructs are the compiled sub-expressions in source order: (left,right), "
                       "(target,value), (0,operand), select(test,body,orelse), range(start,end,step)", floor=10)
+    chk.rule("R01.k", "a return omits the jump to the function's end label only when it is the last statement of the function body "
+                      "(inside a loop or branch it would fall onto the loop's back jump / the ra logic would miss the exit; shared with R06.h)", floor=1)
     chk.rule("R01.j", "an expression folded at compile time is evaluated with the operator its table row names and with the "
                       "semantics of the instruction emitted when it is not folded (shared with R03.a/b)", floor=40)
     chk.rule("R01.i", "constant-list indexing: every select picks the element whose index the condition encodes", floor=3)
@@ -58,6 +60,8 @@ def run(repo: Repo, chk: Check):
     chk.guarded(r01g, repo, chk)
     chk.guarded(r01h, repo, chk)
     chk.guarded(r01i, repo, chk)
+    from .c06 import r06h
+    chk.guarded(r06h, repo, chk, "R01.k")
     from .c03 import fold_table_rows
     chk.guarded(fold_table_rows, repo, chk, "R01.j", "R01.j")
 
